@@ -780,6 +780,40 @@ def do_truncation_case(req):
     ev_got = [e for e in got if not isinstance(e, OsLogEvent)]
     if ev_got != ev_full[:len(ev_got)]:
         return {'violates': True, 'what': 'events reported for the dump cut at byte %d are not a prefix of the full dump\'s' % cut}
+    # the listings of the tool itself: events, traces and formatted lines of the cut dump are a prefix of the full dump's,
+    # and limiting the output count does not change the lines
+    if req.get('listings', True) and data[:4] == b'\x00\x02\xaa\x55':
+        import io
+        import itertools
+        from pykdebugparser.pykdebugparser import PyKdebugParser
+
+        def listing(meth, blob, limit=None):
+            p = PyKdebugParser()
+            p.color = False
+            out = []
+            try:
+                it_ = getattr(p, meth)(_BudgetReader(blob, 4 * len(data) + 100))
+                for x in (it_ if limit is None else itertools.islice(it_, limit)):
+                    out.append(x if isinstance(x, str) else str(x))
+            except TimeoutError as ex:
+                raise
+            except BaseException:  # noqa
+                pass
+            return out
+        for meth in ('kevents', 'traces', 'formatted_kevents', 'formatted_traces'):
+            try:
+                lf = listing(meth, data)
+                lc = listing(meth, data[:cut])
+                if lc != lf[:len(lc)]:
+                    k = next(i for i in range(len(lc)) if i >= len(lf) or lc[i] != lf[i])
+                    return {'violates': True, 'what': '%s of the dump cut at byte %d of %d is not a prefix of the full dump\'s: item %d is %r, the full dump reports %r'
+                                                      % (meth, cut, len(data), k, lc[k], lf[k] if k < len(lf) else None)}
+                for n in req.get('limits', (1, 2)):
+                    ll = listing(meth, data[:cut], n)
+                    if ll != lc[:n]:
+                        return {'violates': True, 'what': '%s of the dump cut at byte %d limited to %d items is %r, unlimited it starts %r' % (meth, cut, n, ll, lc[:n])}
+            except TimeoutError as ex:
+                return {'violates': True, 'what': '%s on the dump cut at byte %d of %d does not stop: %s' % (meth, cut, len(data), ex)}
     return {'violates': False, 'error': err, 'events': len(ev_got)}
 
 
@@ -791,20 +825,33 @@ def do_truncation_search(req):
     dumps = []
     recs = [_rec64(i) for i in range(4)]
     dumps.append(S.build_v2([(1, 5, 'proc'), (2, 6, 'x')], 8, recs))
+    # a process that reads, is renamed by an exec, learns a new thread and reads again: lines must not depend on what follows them
+    import struct
+    inv = {v: k for k, v in _cached_codes().items()}
+
+    def rec(ts, tid, name, q=0, vals=(0, 0, 0, 0), text=None):
+        d = struct.pack('<QQQQ', *vals) if text is None else text.ljust(32, b'\0')
+        return struct.pack('<Q32sQIIQ', ts, d, tid, inv[name] | q, 0, 0)
+    story = [rec(10, 1, 'BSC_read', 1, (3, 0x7000, 128, 0)), rec(11, 1, 'BSC_read', 2, (0, 128, 0, 0)),
+             rec(12, 1, 'TRACE_DATA_EXEC', 0, (5, 1, 2, 0)), rec(13, 1, 'TRACE_STRING_EXEC', 0, text=b'renamed'),
+             rec(14, 1, 'BSC_read', 1, (4, 0x8000, 64, 0)), rec(15, 1, 'BSC_read', 2, (0, 64, 0, 0)),
+             rec(16, 1, 'TRACE_DATA_NEWTHREAD', 0, (9, 5, 0, 0)), rec(17, 1, 'TRACE_STRING_NEWTHREAD', 0, text=b'child'),
+             rec(18, 9, 'BSC_getpid', 1), rec(19, 9, 'BSC_getpid', 2, (0, 5, 0, 0))]
+    dumps.append(S.build_v2([(1, 5, 'proc'), (2, 6, 'x')], 0, story))
     dumps.append(S.build_v3([(1, 5, 'proc')], [recs[:2], recs[2:]], [('trace_codes', b'0x4 A\n')], filler=b'zz'))
     tried = 0
     for data in dumps:
         cuts = list(range(0, len(data) + 1))
         if len(cuts) > budget:
             step = max(1, len(cuts) // budget)
-            cuts = sorted(set(cuts[::step] + cuts[-70:] + [rnd.randrange(len(data)) for _ in range(10)]))
+            cuts = sorted(set(cuts[::step] + cuts[-70:] + [rnd.randrange(len(data)) for _ in range(10)] + [c for c in cuts if c % 32 in (0, 1)]))
         for cut in cuts:
             tried += 1
             r = do_truncation_case({'data': data.hex(), 'cut': cut})
             if r['violates']:
                 r['request'] = {'kind': 'truncation_case', 'data': data.hex(), 'cut': cut}
-                return {'tried': tried, 'bound': 'cut offsets of one small version-2 and one small version-3 dump', 'found': r}
-    return {'tried': tried, 'bound': 'cut offsets of one small version-2 and one small version-3 dump', 'found': None}
+                return {'tried': tried, 'bound': 'cut offsets of two small version-2 dumps (one with exec/new-thread renames; events, traces and formatted lines, count limits 1 and 2) and one small version-3 dump', 'found': r}
+    return {'tried': tried, 'bound': 'cut offsets of two small version-2 dumps (one with exec/new-thread renames; events, traces and formatted lines, count limits 1 and 2) and one small version-3 dump', 'found': None}
 
 
 HANDLERS.update({'v3_case': do_v3_case, 'v3_blocks_search': do_v3_blocks_search, 'truncation_case': do_truncation_case,
@@ -1311,11 +1358,55 @@ def do_lookup_case(req):
     return {'violates': bool(what), 'what': what, 'records': len(recs)}
 
 
+def do_multi_lookup_case(req):
+    """a path-taking syscall window holding n complete lookups of distinct paths: the quoted paths the decoder shows are
+    the first lookups of the window in order (only in increasing lookup order for contracts.decoders.C08_ORDER_ONLY)"""
+    import re
+    from pykdebugparser.traces_parser import TracesParser
+    from spec import chunks as S
+    from contracts.decoders import C08_ORDER_ONLY
+    codes = _cached_codes()
+    inv = {v: k for k, v in codes.items()}
+    name, n, tid = req['decoder'], req['n'], 5
+    paths = ['/dir%d/file%d' % (i, i) for i in range(n)]
+    p = TracesParser(codes, {}, {})
+    evs = [_ev_raw(inv[name], tid, 1, bytes(32))]
+    for i, pth in enumerate(paths):
+        for q, data in S.enc_lookup(100 + i, pth):
+            evs.append(_ev_raw(inv['VFS_LOOKUP'], tid, q, data))
+    evs.append(_ev_raw(inv[name], tid, 2, bytes(32)))
+    out = None
+    try:
+        for e in evs:
+            r = p.feed(e)
+            if r is not None and type(r).__name__ != 'VfsLookup':
+                out = str(r)
+    except BaseException as ex:  # noqa
+        return {'violates': True, 'what': '%s with %d lookups in its window raised %s: %s' % (name, n, type(ex).__name__, ex)}
+    if out is None:
+        return {'violates': False, 'note': 'no trace'}
+    shown = [q for q in re.findall(r'"([^"]*)"', out) if q in paths]
+    if name in C08_ORDER_ONLY:
+        pos = [paths.index(q) for q in shown]
+        bad = pos != sorted(set(pos))
+    else:
+        bad = shown != paths[:len(shown)]
+    return {'violates': bad, 'text': out,
+            'what': '%s with the %d lookups %r in its window shows the paths %r: not the looked-up paths in lookup order (%s)' % (name, n, paths, shown, out) if bad else ''}
+
+
 def do_lookup_search(req):
     import random
     rnd = random.Random(req.get('seed', 0))
     budget = req.get('budget', 400)
     tried = 0
+    if req.get('decoder'):
+        for n in range(0, 7):
+            tried += 1
+            r = do_multi_lookup_case({'decoder': req['decoder'], 'n': n})
+            if r['violates']:
+                r['request'] = {'kind': 'multi_lookup_case', 'decoder': req['decoder'], 'n': n}
+                return {'tried': tried, 'bound': '0..6 complete lookups in the window of %s' % req['decoder'], 'found': r, 'violates': True, 'what': r['what']}
     lens = sorted(set([0, 1, 15, 16, 17, 23, 24, 25, 31, 32, 33, 47, 48, 49, 55, 56, 57, 63, 64, 65, 87, 88, 89, 120, 183, 184]))
     plan = []
     for kind, maxlen in (('lookup', 184), ('global', 184), ('name', 64)):
@@ -1340,7 +1431,7 @@ def do_lookup_search(req):
             'violates': False}
 
 
-HANDLERS.update({'lookup_case': do_lookup_case, 'lookup_search': do_lookup_search})
+HANDLERS.update({'lookup_case': do_lookup_case, 'lookup_search': do_lookup_search, 'multi_lookup_case': do_multi_lookup_case})
 
 
 # ------------------------------------------------------------------------------ sampled conformance of assumed contracts
